@@ -95,3 +95,19 @@ Proof.
   intros E. assert (send_inv (SendS false false l (PushS rd fn []))) as I by (exists false; reflexivity).
   destruct (@send_run_proto wh uh n _ p s' I E) as [pr H]. apply proto_ok_run. congruence.
 Qed.
+
+(* next.rs: the future returns Pending for every leading Pending answer of the pull and then
+   resolves with the pull's first other answer (Some item / None) *)
+Theorem next_spec {A} : forall (l : script A),
+  exists rest, l = repeat Pend (N.to_nat (fst (next_res l))) ++ rest /\
+               fst (src_pull rest) = snd (next_res l) /\
+               match rest with Pend :: _ => False | _ => True end.
+Proof.
+  induction l as [|[a| |] r [rest [E [H1 H2]]]].
+  - exists []. cbn [next_res fst snd]. auto.
+  - exists (Rdy a :: r). cbn [next_res fst snd]. auto.
+  - cbn [next_res]. destruct (next_res r) as [p o]. cbn [fst snd] in *. exists rest.
+    replace (N.to_nat (1 + p)) with (S (N.to_nat p)) by lia. cbn [repeat app].
+    split; [f_equal; exact E|auto].
+  - exists (End :: r). cbn [next_res fst snd]. auto.
+Qed.
